@@ -763,3 +763,98 @@ def complex_grid(tier):
     c("imag(z*z)", "imag(z*z)", lambda np, x: np.imag(x * x), [Cx(2)])
     c("angle", "np.angle(z, deg=True)", lambda np, x: np.angle(x, deg=True), [Cx(2)])
     return _uniq(out)
+
+
+# ----------------------------------------------------------------------------------------------
+# composite programs (C03-A, and reused by C04/C06/C07/C10/C17)
+
+
+def program_grid(tier):
+    out = []
+
+    def p(lab, f, args, k=0, max_paths=None):
+        out.append(Config("program", "PROG " + lab, f, args, k, tags=("program",), max_paths=max_paths))
+
+    def diamond(np, x):
+        a = np.sin(x)
+        b = a * a + a
+        return b * a
+
+    p("diamond sin", diamond, [R(2)])
+    p("multi-edge x*x", lambda np, x: x * x, [R(2)])
+    p("multi-edge dot(x,x)", lambda np, x: np.dot(x, x), [R(2, 2)])
+    p("multi-edge x@x@x", lambda np, x: x @ x @ x, [R(2, 2)])
+    p("same value twice add", lambda np, x: np.add(x, x), [R(2)])
+    p("same value twice where", lambda np, x: np.where(onp.array([True, False]), x, x), [R(2)])
+
+    def dead(np, x):
+        z = np.exp(x) * 3.0  # never reaches the output
+        w = np.sum(z)  # noqa
+        return np.sum(x ** 2)
+
+    p("dead branch", dead, [R(3)])
+
+    def fanout(np, x):
+        s = np.sum(x)
+        return x * s + s * s
+
+    p("fan-out of a reduction", fanout, [R(3)])
+
+    def branch(np, x):
+        if x[0] > 0:
+            return x * x
+        return -x
+
+    p("value-dependent branch", branch, [R(2)])
+
+    def loopn(np, x):
+        n = 1 if x[0] > x[1] else 2
+        y = x
+        for _ in range(n):
+            y = y * x + 1.0
+        return y
+
+    p("value-dependent trip count", loopn, [R(2)])
+
+    def whl(np, x):
+        y = x
+        k = 0
+        while np.sum(y) < 1.0 and k < 2:
+            y = y * 2.0 + x
+            k += 1
+        return y
+
+    p("while loop on traced value", whl, [R(2)])
+
+    def rec(np, x):
+        def f(z, depth):
+            return z if depth == 0 else f(z * x + 1.0, depth - 1)
+
+        return f(x, 3)
+
+    p("recursion with closure", rec, [R(2)])
+    p("constants mixed in", lambda np, x: 2.0 * x + onp.array([1.0, 2.0]) * x ** 2 - 3.0, [R(2)])
+    p("indexing mixture", lambda np, x: x[0] * x + x[::-1] + x[[0, 0, 1]][1:], [R(2)])
+    p("standardise", lambda np, x: (x - np.mean(x)) / np.std(x), [R(3)])
+    p("softmax", lambda np, x: np.exp(x) / np.sum(np.exp(x)), [R(3)])
+    p("logsumexp", lambda np, x: np.log(np.sum(np.exp(x))), [R(3)])
+    p("tanh layer", lambda np, x, w: np.tanh(np.dot(w, x)), [R(2), R(2, 2)], 0)
+    p("tanh layer", lambda np, x, w: np.tanh(np.dot(w, x)), [R(2), R(2, 2)], 1)
+    p("quadratic form", lambda np, x, a: np.dot(x, np.dot(a, x)), [R(2), R(2, 2)], 0)
+    p("quadratic form", lambda np, x, a: np.dot(x, np.dot(a, x)), [R(2), R(2, 2)], 1)
+    p("norm of residual", lambda np, x, a: np.linalg.norm(np.dot(a, x) - 1.0), [R(2), R(2, 2)], 0)
+    p("broadcast chain", lambda np, x, y: np.sum(x[:, None] * y[None, :] + x[:, None], axis=0), [R(2), R(3)], 0)
+    p("broadcast chain", lambda np, x, y: np.sum(x[:, None] * y[None, :] + x[:, None], axis=0), [R(2), R(3)], 1)
+    p("concatenate + reshape + transpose", lambda np, x: np.transpose(np.reshape(np.concatenate([x, 2 * x]), (2, 2))) @ x, [R(2)])
+    p("relu-like maximum", lambda np, x: np.sum(np.maximum(x, 0.0) * x), [R(2)])
+    p("abs and sign", lambda np, x: np.abs(x) * np.sign(x) + x, [R(2)])
+    p("x*floor(x)", lambda np, x: x * np.floor(x), [R(2)])
+    p("argmax gather", lambda np, x: x[np.argmax(x)] * x, [R(3)])
+    p("det times x", lambda np, x: np.linalg.det(x) * x, [R(2, 2)])
+    p("scalar chain", lambda np, x: np.exp(x) * np.sin(x) + x ** 3 / (1.0 + x * x), [SC])
+    p("power tower", lambda np, x: (x ** 2) ** 1.5 + x ** x, [R(2)])
+    if tier == "thorough":
+        p("3-layer", lambda np, x, w: np.tanh(np.dot(w, np.tanh(np.dot(w, np.tanh(np.dot(w, x)))))), [R(2), R(2, 2)], 1)
+        p("diamond 3x3", lambda np, x: (x @ x.T) * (x.T @ x), [R(3, 3)])
+        p("inv then det", lambda np, x: np.linalg.det(np.linalg.inv(x)) * x, [R(2, 2)])
+    return _uniq(out)
